@@ -71,6 +71,8 @@ let print_obs o =
   | OCase (st, mvd) ->
       Printf.printf "STORED %s\n" (if st = [] then "-" else String.concat "," (List.map (fun o -> hex [o]) st));
       Printf.printf "MOVED%s\n" (String.concat "" (List.map (fun z -> " " ^ string_of_int (int_of_z z)) mvd))
+  | OAFail (a, u, c) -> Printf.printf "EV AFAIL %d %d %d\n" (i a) (i u) (i c)
+  | OThrow -> Printf.printf "THROW\n"
   | OIter r -> Printf.printf "ITER %s\n" (zs r)
   | OCmp r -> Printf.printf "CMP %s\n" (String.concat " " (List.map (fun b -> if b then "1" else "0") r))
   | ONull (s, sz) -> Printf.printf "NULL %d %d\n" (n s) (i sz)
@@ -116,6 +118,7 @@ let parse_op params toks =
   | "moveassign" :: [d; s] -> OpMoveAssign (nat d, nat s)
   | "swap" :: [a; b] -> OpSwap (nat a, nat b)
   | "junk" :: [b] -> OpJunk (z b)
+  | "failat" :: [k] -> OpFailAt (nat k)
   | "refassign" :: [d; i; s; j; form] -> OpRefAssign (nat d, z i, nat s, z j, form = "2")
   | "refswap" :: [a; i; b; j; _] -> OpRefSwap (nat a, z i, nat b, z j)
   | "write" :: s :: i :: k :: o :: _ :: bs -> OpWrite (nat s, z i, nat k, z o, List.map z bs)
